@@ -54,6 +54,7 @@ type FuncContract struct {
 	Line       string
 	Ghost      []string
 	Appends    []*AppendClause
+	AllowGlobals bool    // frame: package-level state (the atomic id counter) may change
 	Auto       bool      // synthesised for an implementer of a contracted interface
 	RefinePre  []*Clause // interface preconditions that must imply this contract's own preconditions
 	Inherited  []string  // interface methods whose clauses were inherited
@@ -92,6 +93,7 @@ type ContractDB struct {
 	Props  map[string]*PropDecl
 	Errors []string // contract drift / parse errors
 	Order  []*FuncContract
+	Exempt map[string]bool // "pkg.Iface|pkg.Type": assumed never used through that interface
 }
 
 func (db *ContractDB) lookup(fn *ssa.Function) *FuncContract {
@@ -106,7 +108,7 @@ var reClauseProps = regexp.MustCompile(`^(\w+)\[((?:C\d+\s*,?\s*)+)\]\s*(.*)$`)
 
 func loadContracts(L *Loaded) *ContractDB {
 	db := &ContractDB{L: L, Funcs: map[*ssa.Function]*FuncContract{}, ByRef: map[string]*FuncContract{}, Specs: map[string][]*SpecFunc{},
-		Ifaces: map[string]*IfaceContract{}, Props: map[string]*PropDecl{}}
+		Ifaces: map[string]*IfaceContract{}, Props: map[string]*PropDecl{}, Exempt: map[string]bool{}}
 	var names []string
 	for name := range L.SSAPkgs {
 		names = append(names, name)
@@ -122,7 +124,73 @@ func loadContracts(L *Loaded) *ContractDB {
 		}
 	}
 	db.inheritIfaces()
+	db.autoCtors()
 	return db
+}
+
+// autoCtors: every New*/new* function of the library that returns a pointer to a kind with a wf spec and has no
+// contract of its own gets "ensures r != nil && wf(r)" (constructor establishes the representation invariant).
+// Constructors that need preconditions on their arguments carry explicit contracts instead.
+func (db *ContractDB) autoCtors() {
+	L := db.L
+	var pnames []string
+	for n := range L.SSAPkgs {
+		pnames = append(pnames, n)
+	}
+	sort.Strings(pnames)
+	e1, _ := parser.ParseExpr("r != nil && wf(r)")
+	for _, pn := range pnames {
+		sp := L.SSAPkgs[pn]
+		var fnames []string
+		for n, m := range sp.Members {
+			if _, ok := m.(*ssa.Function); ok {
+				fnames = append(fnames, n)
+			}
+		}
+		sort.Strings(fnames)
+		for _, n := range fnames {
+			if !strings.HasPrefix(n, "New") && n != "newUint16Message" && n != "newUint32Message" && n != "newCTLabel" {
+				continue
+			}
+			fn := sp.Members[n].(*ssa.Function)
+			if fn.Blocks == nil || db.Funcs[fn] != nil || fn.TypeParams().Len() > 0 {
+				continue
+			}
+			res := fn.Signature.Results()
+			if res.Len() < 1 || res.Len() > 2 {
+				continue
+			}
+			pt, ok := res.At(0).Type().Underlying().(*types.Pointer)
+			if !ok {
+				continue
+			}
+			has := false
+			for _, sf := range db.Specs["wf"] {
+				if types.Identical(sf.PTypes[0], res.At(0).Type()) || types.Identical(sf.PTypes[0], pt) {
+					has = true
+				}
+			}
+			if !has {
+				continue
+			}
+			fc := &FuncContract{Ref: n, Pkg: pn, Fn: fn, Loops: map[int]*LoopContract{}, Line: "auto constructor contract", Auto: true, Props: []string{"C01", "C02"}, InlineOnly: true, AllowGlobals: true}
+			for _, p := range fn.Params {
+				fc.Params = append(fc.Params, p.Name())
+			}
+			fc.Results = []string{"r"}
+			text := "r != nil && wf(r)"
+			ex1 := e1
+			if res.Len() == 2 {
+				fc.Results = []string{"r", "err"}
+				text = "err == nil ==> r != nil && wf(r)"
+				ex1, _ = parseSpecExpr(text)
+			}
+			fc.Ensures = []*Clause{{Text: text, Expr: ex1, Line: "auto", Label: "wf-ctor"}}
+			db.Funcs[fn] = fc
+			db.ByRef[pn+"."+n] = fc
+			db.Order = append(db.Order, fc)
+		}
+	}
 }
 
 // inheritIfaces: behavioural subtyping. Every method of a repo type that implements a contracted interface
@@ -130,8 +198,103 @@ func loadContracts(L *Loaded) *ContractDB {
 // implementer, requires become its preconditions unless it declares weaker ones of its own (then
 // "interface requires ==> own requires" is an obligation). Implementers without a contract get one synthesised,
 // so a call on an unknown dynamic type is sound for every dynamic type the library can produce.
+func (db *ContractDB) ifaceType(iname string) *types.Interface {
+	dot := strings.Index(iname, ".")
+	if dot < 0 {
+		return nil
+	}
+	ipkg := db.L.SSAPkgs[iname[:dot]]
+	if ipkg == nil {
+		return nil
+	}
+	obj := ipkg.Pkg.Scope().Lookup(iname[dot+1:])
+	if obj == nil {
+		return nil
+	}
+	it, _ := obj.Type().Underlying().(*types.Interface)
+	return it
+}
+
+func hasClauseText(cs []*Clause, text string) bool {
+	for _, c := range cs {
+		if c.Text == text {
+			return true
+		}
+	}
+	return false
+}
+
+// mergeEmbeddedIfaces: an interface contract includes the clauses of the contracted interfaces it embeds
+// (openflow13.Action embeds util.Message), so a call through the wider interface sees both.
+func (db *ContractDB) mergeEmbeddedIfaces() {
+	var inames []string
+	for n := range db.Ifaces {
+		inames = append(inames, n)
+	}
+	sort.Strings(inames)
+	for _, in := range inames {
+		ic := db.Ifaces[in]
+		dot := strings.Index(in, ".")
+		ipkg := db.L.SSAPkgs[in[:dot]]
+		if ipkg == nil {
+			continue
+		}
+		obj := ipkg.Pkg.Scope().Lookup(in[dot+1:])
+		if obj == nil {
+			continue
+		}
+		for _, jn := range inames {
+			if jn == in || !ifaceEmbeds(obj.Type(), jn) {
+				continue
+			}
+			jc := db.Ifaces[jn]
+			for mn, jm := range jc.Methods {
+				im := ic.Methods[mn]
+				if im == nil {
+					ic.Methods[mn] = jm
+					continue
+				}
+				merged := *im
+				merged.Requires = nil
+				for _, r := range jm.Requires {
+					merged.Requires = append(merged.Requires, r)
+				}
+				for _, r := range im.Requires {
+					if !hasClauseText(merged.Requires, r.Text) {
+						merged.Requires = append(merged.Requires, r)
+					}
+				}
+				merged.Ensures = nil
+				for _, r := range jm.Ensures {
+					c := *r
+					if c.Props == nil {
+						c.Props = jm.Props
+					}
+					merged.Ensures = append(merged.Ensures, &c)
+				}
+				for _, r := range im.Ensures {
+					if !hasClauseText(merged.Ensures, r.Text) {
+						c := *r
+						if c.Props == nil {
+							c.Props = im.Props
+						}
+						merged.Ensures = append(merged.Ensures, &c)
+					}
+				}
+				for _, pp := range jm.Props {
+					if !hasProp(merged.Props, pp) {
+						merged.Props = append(merged.Props, pp)
+					}
+				}
+				ic.Methods[mn] = &merged
+			}
+		}
+	}
+}
+
 func (db *ContractDB) inheritIfaces() {
 	L := db.L
+	db.mergeEmbeddedIfaces()
 	var inames []string
 	for n := range db.Ifaces {
 		inames = append(inames, n)
@@ -173,7 +336,7 @@ func (db *ContractDB) inheritIfaces() {
 					continue
 				}
 				pt := types.NewPointer(tobj.Type())
-				if !types.Implements(pt, it) {
+				if !types.Implements(pt, it) || db.Exempt[iname+"|"+pn+"."+tn] {
 					continue
 				}
 				var mnames []string
@@ -224,16 +387,32 @@ func (db *ContractDB) inheritIfaces() {
 						}
 					}
 					label := func(kind string, j int) string { return fmt.Sprintf("%s.%s.%s%d", iname, mn, kind, j+1) }
-					if len(fc.Requires) == 0 {
+					ownReq := false
+					for _, r := range fc.Requires {
+						if r.Label == "" {
+							ownReq = true
+						}
+					}
+					if !ownReq {
 						for j, r := range mc.Requires {
+							if hasClauseText(fc.Requires, r.Text) {
+								continue
+							}
 							c := *r
 							c.Label = label("pre", j)
 							fc.Requires = append(fc.Requires, &c)
 						}
 					} else {
-						fc.RefinePre = append(fc.RefinePre, mc.Requires...)
+						for _, r := range mc.Requires {
+							if !hasClauseText(fc.RefinePre, r.Text) {
+								fc.RefinePre = append(fc.RefinePre, r)
+							}
+						}
 					}
 					for j, en := range mc.Ensures {
+						if hasClauseText(fc.Ensures, en.Text) {
+							continue
+						}
 						c := *en
 						c.Label = label("post", j)
 						if c.Props == nil {
@@ -371,6 +550,18 @@ func (db *ContractDB) parseFile(pkg, file string) {
 		case "spec":
 			curF, curLoop, curI = nil, nil, nil
 			db.parseSpec(pkg, rest, ln)
+		case "exempt":
+			// exempt <Iface> <Type>: the type implements the interface syntactically but is never used through it
+			f := strings.Fields(rest)
+			if len(f) != 2 {
+				db.errf(ln, "exempt <Iface> <Type>")
+				continue
+			}
+			in := f[0]
+			if !strings.Contains(in, ".") {
+				in = pkg + "." + in
+			}
+			db.Exempt[in+"|"+pkg+"."+f[1]] = true
 		case "property":
 			f := strings.Fields(rest)
 			if len(f) >= 3 && f[1] == "min-obligations" {
@@ -433,6 +624,8 @@ func (db *ContractDB) parseFile(pkg, file string) {
 				curF.InlineOnly = true
 			case "nosafety":
 				curF.NoSafety = true
+			case "allowglobals":
+				curF.AllowGlobals = true
 			case "pure":
 				curF.Pure = true
 			case "allocbound":
@@ -798,6 +991,21 @@ func (ex *Exec) frameEnv(st *State, fr *Frame) *Env {
 		if _, ok := env.vars[p.Name()]; !ok {
 			env.bind(p.Name(), fr.regs[p], p.Type())
 		}
+	}
+	// source-level locals and named results (latest DebugRef binding)
+	for name, nb := range fr.names {
+		if _, ok := env.vars[name]; ok {
+			continue
+		}
+		if nb.isAddr {
+			if p, ok := nb.v.(VPtr); ok && (p.Obj > 0 || p.Global != nil) {
+				if pt, ok2 := nb.t.Underlying().(*types.Pointer); ok2 {
+					env.bind(name, st.loadPtr(p), pt.Elem())
+				}
+			}
+			continue
+		}
+		env.bind(name, nb.v, nb.t)
 	}
 	// captured variables of closures, by source name
 	for i, fv := range fn.FreeVars {
@@ -1317,6 +1525,9 @@ func (e *Env) callExpr(n *ast.CallExpr) tv {
 			return o.eval(n.Args[0])
 		case "imp":
 			if !e.assuming && !e.negated {
+				if pre := e.boolArg(n.Args[0]); pre.IsFalse() {
+					return tv{VBool{True}, types.Typ[types.Bool]}
+				}
 				// goal position: evaluate the consequent first, then instantiate universal hypotheses of the
 				// antecedent at the consequent's skolem indices (a sound weakening of the hypothesis)
 				var sk []*Term
@@ -1680,6 +1891,15 @@ func (e *Env) sumTerm(s VSlice, et types.Type, k *Term) *Term {
 	st.assume(Eq(App(fname, BV(64), Const(64, 0)), Const(64, 0)))
 	total := App(fname, BV(64), s.Len)
 	st.assume(ULe(total, Const(64, 1<<50)))
+	// an appended sequence agrees with the sequence it was appended to on every prefix of the old length
+	if par := o.Seq.parent; par != nil && o.Seq.parentLen != nil {
+		pname := fmt.Sprintf("sum:seq%d", par.id)
+		pl := o.Seq.parentLen
+		st.assume(Eq(App(fname, BV(64), pl), App(pname, BV(64), pl)))
+		st.assume(Implies(ULe(k, pl), Eq(App(fname, BV(64), k), App(pname, BV(64), k))))
+		st.assume(Eq(App(pname, BV(64), Const(64, 0)), Const(64, 0)))
+		st.assume(ULe(App(pname, BV(64), pl), Const(64, 1<<50)))
+	}
 	st.assume(Implies(ULe(k, s.Len), ULe(t, total)))
 	if !(k.IsConst() && k.Val == 0) {
 		x := Sub(k, Const(64, 1))
